@@ -105,6 +105,7 @@ def run(tier):
             )
         )
     with common.Workdir("c16") as wd:
+        chrun.precompile_repo(wd, common.REPO)
         prelude = "from vf.kernels import c16k\nc16k.setup(%d)\n" % len(c16k.SCRIPTS)
         results, counts, st = chrun.check_conditions(conds, prelude, wd, per_cond_timeout=200 if tier == "quick" else 900, batch=1, jobs=16, label="cli", models=("hasattr",))
     discharged = 0
